@@ -455,7 +455,10 @@ def c19(c):
         radaunum_stream(c)
         bdfnum_stream(c)
         generic_monitor(c, "protocol_check", ["protocol-check", c.seed, 250 if c.tier == "quick" else 5000], "pr")
-    only_keys(c, ("c19",))
+        # "passing an interpolant valid on that interval": the XOut family of dense-check (a callback that asks for an output
+        # point with dense_output off must get an interpolant of the step that contains it)
+        generic_monitor(c, "dense_check", ["dense-check", c.seed, 10 if c.tier == "quick" else 200], "dense")
+    only_keys(c, ("c19", "c06-xout-interpolant"))
     c.partial = ["'unchanged state is a no-op' and 'doubling doubles everything' are monitored (protocol-check), not proved; open findings: BDF restart, Radau Newton start",
                  "Radau and BDF protocol: monitor only"]
 
